@@ -404,8 +404,12 @@ def searcher(ctx, cfg, b, w_impl, pred_impl, rec):
         idxb = np.random.default_rng(cfg["seed"] + 7).integers(0, Xq.shape[0], size=5000)
         big = col2(call(Xq[idxb]))
         devb = np.abs(big - pred_impl[idxb])
-        if big.shape[0] != 5000 or (devb > 2 * tol_ro[idxb]).any():
-            ib = int(np.argmax((devb - 2 * tol_ro[idxb]).max(axis=1))) if big.shape[0] == 5000 else -1
+        # 2 tol_ro bounds the rounding of K(Xnew, basis) @ weights for GIVEN kernel entries; evaluated among 5000 rows the entries
+        # themselves are rounded differently (other blocking of |x|^2 - 2xy + |y|^2): a margin of 1e-7 of the magnitude of the
+        # terms is added (support comparison; observed differences <= 1e-10, a row mix-up changes the value by O(1))
+        tolm = 2 * tol_ro[idxb] + 1e-7 * ((np.abs(Ks) @ np.abs(w_impl))[idxb] + np.abs(pred_impl[idxb]) + 1.0)
+        if big.shape[0] != 5000 or (devb > tolm).any():
+            ib = int(np.argmax((devb - tolm).max(axis=1))) if big.shape[0] == 5000 else -1
             ctx.violation(key + "|many-rows", "among 5000 query rows, a row's value differs from the value of the same row in a small batch",
                           replay_of(cfg, b, {"rows": "Xnew[default_rng(seed + 7).integers(0, len(Xnew), 5000)]", "first_bad_row": ib,
                                              "max_difference": float(devb.max()) if big.shape[0] == 5000 else "shape"}))
